@@ -130,6 +130,47 @@ var corpus = []scripted{
 			h.doRead()
 		})
 	}},
+	{"an acknowledgement owed across a reconnect to a broker that lost its session", baseOpts(), func(h *hist) {
+		h.quiet(func() {
+			h.sc.budgetIn = 0
+			h.sc.inject = [][]byte{brokerPublish(1, false, 0xabc, "in/x", []byte("m1"))}
+			h.doRead() // connects, returns the message
+			h.sc.wscript = []writeAns{{wHard, 0}}
+			h.doRead()                  // the PUBACK write fails: the acknowledgement is kept, the connection left
+			h.sc.sessionPresent = false // the broker comes back without its session: CONNACK flags 0
+			h.sc.inject = [][]byte{brokerPublish(0, false, 0, "in/y", []byte("m2"))}
+			h.doRead() // redials; the PUBACK goes out on the new connection
+			h.sc.inject = [][]byte{brokerPublish(2, false, 0xabd, "in/z", []byte("m3"))}
+			h.doRead()
+			h.sc.wscript = []writeAns{{wHard, 1}}
+			h.doRead() // the marker is saved, the PUBREC write fails
+			h.sc.sessionPresent = false
+			h.doRead()
+			h.goodSuffix()
+		})
+	}},
+	{"Disconnect right after another goroutine's write failed, before the read routine noticed", baseOpts(), func(h *hist) {
+		h.quiet(func() {
+			h.sc.budgetIn = 0
+			h.connectQuiet()
+			h.sc.wscript = []writeAns{{wHard, 2}}
+			h.publish(false, []byte("p"), "t") // the write fails: connect pending, Online still released
+			h.disconnect()                     // ErrDown; Offline released and Online blocked all the same
+			h.doRead()
+			h.doRead()
+		})
+	}},
+	{"Close right after another goroutine's write failed, before the read routine noticed", baseOpts(), func(h *hist) {
+		h.quiet(func() {
+			h.sc.budgetIn = 0
+			h.connectQuiet()
+			h.sc.wscript = []writeAns{{wHard, 2}}
+			h.publish(false, []byte("p"), "t")
+			h.close()
+			h.doRead()
+			h.doRead()
+		})
+	}},
 	{"F11: restart with only PUBRELs pending", baseOpts(), func(h *hist) {
 		h.quiet(func() {
 			h.sc.budgetIn = 0
